@@ -11,7 +11,6 @@ import (
 	"github.com/smart-core-os/sc-golang/internal/testproto"
 	"github.com/smart-core-os/sc-golang/verifharness/lib"
 	"google.golang.org/protobuf/proto"
-	pref "google.golang.org/protobuf/reflect/protoreflect"
 )
 
 type monitors struct {
@@ -131,7 +130,7 @@ func (m mspec) simple() bool {
 // exact arithmetic. applicable=false when the code's float arithmetic is inexact on some leaf pair or
 // a tolerance is negative. sig is non-empty when the only reason for the expectation is a leaf class
 // with its own signature (non-finite floats, wrapped durations).
-func tolExpected(e espec, x, y proto.Message) (expected bool, applicable bool, class string) {
+func tolExpected(e espec, x, y proto.Message, keepPresence bool) (expected bool, applicable bool, class string) {
 	var fas, tws, dws []atom
 	for _, v := range e.V {
 		a := v.Atoms[0]
@@ -146,7 +145,7 @@ func tolExpected(e espec, x, y proto.Message) (expected bool, applicable bool, c
 			return false, false, ""
 		}
 	}
-	sx, sy := stripChangeTime(x, false), stripChangeTime(y, false)
+	sx, sy := stripChangeTime(x, keepPresence), stripChangeTime(y, keepPresence)
 	bx, lx := blank(sx, len(fas) > 0, len(tws) > 0, len(dws) > 0)
 	by, ly := blank(sy, len(fas) > 0, len(tws) > 0, len(dws) > 0)
 	if !proto.Equal(bx, by) {
@@ -154,6 +153,7 @@ func tolExpected(e espec, x, y proto.Message) (expected bool, applicable bool, c
 	}
 	class = "leaves"
 	expected = true
+	nonfinite := false
 	keys := func(n int, f func(func(string))) []string {
 		ks := make([]string, 0, n)
 		f(func(k string) { ks = append(ks, k) })
@@ -177,6 +177,7 @@ func tolExpected(e espec, x, y proto.Message) (expected bool, applicable bool, c
 				}
 			case !finite(a) || !finite(b):
 				expected = false
+				nonfinite = true
 			case !exactFloatOps(at.A, at.B, a, b):
 				return false, false, ""
 			default:
@@ -204,6 +205,9 @@ func tolExpected(e espec, x, y proto.Message) (expected bool, applicable bool, c
 	}
 	if !expected && class == "nonfinite-same" {
 		class = "leaves"
+	}
+	if !expected && nonfinite {
+		class = "nonfinite"
 	}
 	return expected, true, class
 }
@@ -237,7 +241,8 @@ func (c ecase) monitor(ms *monitors) string {
 			ms.equal.Violate(sig+"/(y,x)", "cmp.Equal()(y,x) disagrees with proto.Equal modulo Change.change_time", in, b2s(exp), out[1])
 		}
 	case c.Spec.simple():
-		exp, ok, class := tolExpected(c.Spec.E[0], c.X, c.Y)
+		exp, ok, class := tolExpected(c.Spec.E[0], c.X, c.Y, false)
+		expKeep, _, _ := tolExpected(c.Spec.E[0], c.X, c.Y, true)
 		if !ok {
 			ms.tol.Count("skipped-inexact-or-negative")
 			break
@@ -246,8 +251,12 @@ func (c ecase) monitor(ms *monitors) string {
 		ms.tol.Count("class:" + class + ":" + b2s(exp))
 		if out[0] != b2s(exp) {
 			sig := "C16/" + c.specClass() + "/not-exactly-within-tolerance"
-			if class == "nonfinite-same" {
+			if exp != expKeep && out[0] == b2s(expKeep) {
+				sig = "C16/Equal/change_time-presence-not-ignored"
+			} else if class == "nonfinite-same" {
 				sig = "C16/FloatValueApprox/nonfinite-not-reflexive"
+			} else if class == "nonfinite" {
+				sig = "C16/FloatValueApprox/nonfinite-accepted"
 			} else if exp && c.Spec.hasKind("dw") {
 				sig += "/rejects"
 			} else if !exp && c.Spec.hasKind("dw") {
@@ -262,7 +271,7 @@ func (c ecase) monitor(ms *monitors) string {
 		sig := "C16/" + c.specClass() + "/not-symmetric"
 		ms.symrefl.Violate(sig, "eq(x,y) != eq(y,x)", in, out[0], out[1])
 	}
-	if c.Spec.nonNegative() {
+	if c.Spec.nonNegative() && !(c.Spec.Comb == "MO" && len(c.Spec.E) == 0) {
 		for i, m := range []proto.Message{c.X, c.Y} {
 			if out[2+i] != "true" {
 				sig := "C16/" + c.specClass() + "/not-reflexive"
@@ -409,8 +418,8 @@ func (g *gen) mspec() mspec {
 func (g *gen) pair() (x, y proto.Message, label string) {
 	mt := ancestorTypes[g.r.Intn(len(ancestorTypes))]
 	anc := g.newMessage(mt, 3)
-	x = proto.Clone(anc)
-	y = proto.Clone(anc)
+	x = cloneExact(anc)
+	y = cloneExact(anc)
 	n := g.r.Intn(4)
 	label = fmt.Sprintf("mut%d", n)
 	for i := 0; i < n; i++ {
@@ -469,6 +478,10 @@ func runEquator(f lib.Flags, res *lib.Result, drv *lib.Driver, ms *monitors) {
 			code := c.monitor(ms)
 			model := fmt.Sprint([4]string{ans[4*i], ans[4*i+1], ans[4*i+2], ans[4*i+3]})
 			key := lines[4*i]
+			if c.inexactDP() {
+				tie.Count("skipped-inexact-float32-division")
+				continue
+			}
 			tie.Record(key, ans[4*i] == "false" || c.Label != "mut0", c.json(), model, code)
 			tie.Count("spec:" + c.specClass())
 			tie.Count("verdict:" + ans[4*i])
@@ -484,4 +497,30 @@ func firstLabel(l string) string {
 		}
 	}
 	return l
+}
+
+// inexactDP: the spec contains DurationValueWithinP and some Duration in x or y makes float32(x)/float32(y)
+// round (the model divides exactly): such cases are not compared.
+func (c ecase) inexactDP() bool {
+	if !c.Spec.hasKind("dp") {
+		return false
+	}
+	var ds []int64
+	for _, m := range []proto.Message{c.X, c.Y} {
+		if !valid(m) {
+			continue
+		}
+		_, lv := blank(m, false, false, true)
+		for _, d := range lv.durs {
+			ds = append(ds, int64(d.AsDuration()))
+		}
+	}
+	for _, a := range ds {
+		for _, b := range ds {
+			if !exactDiv32(a, b) {
+				return true
+			}
+		}
+	}
+	return false
 }
